@@ -850,6 +850,9 @@ func ruleC06f(c *Ctx) {
 			if !ok || (bo.Op != token.NEQ && bo.Op != token.EQL) || !isNilConst(bo.Y) || !p.isVar(bo.X, d.Err) {
 				continue
 			}
+			if inTraceRegion(b) {
+				continue // a test of the error made only to word a trace line
+			}
 			errSucc := b.Succs[0]
 			if bo.Op == token.EQL {
 				errSucc = b.Succs[1]
